@@ -692,6 +692,23 @@ func eiMutateTokens(r *rand.Rand, text string) string {
 			toks[i] = toks[j]
 		case 8: // a number from the pool
 			toks[pickTok(eiIsNumTok)] = eiNumPool[r.Intn(len(eiNumPool))]
+		case 9: // the VALUE of an attribute assignment / default (the token before the ';' of a BA_ / BA_DEF_DEF_ line) becomes extreme
+			var cands []int
+			for i := first; i+1 < len(toks); i++ {
+				if toks[i] == "BA_" || toks[i] == "BA_DEF_DEF_" {
+					for j := i + 1; j < len(toks) && j < i+12; j++ {
+						if toks[j] == ";" {
+							if j-1 > i {
+								cands = append(cands, j-1)
+							}
+							break
+						}
+					}
+				}
+			}
+			if len(cands) > 0 {
+				toks[cands[r.Intn(len(cands))]] = pick(r, "-1", "-2", "-1", "3", "99", "4294967296", "-0.5", "2.5", "1e30", "\"x\"")
+			}
 		default: // a number moves a little
 			i := pickTok(eiIsNumTok)
 			if v, err := strconv.Atoi(toks[i]); err == nil {
